@@ -1,5 +1,5 @@
 #!/usr/bin/env python3
-"""Sanitizer / interpreter steps of the thorough tier (C08: ASan, valgrind memcheck, Miri; C18: TSan, Miri).
+"""Sanitizer / interpreter / fuzzer steps of the thorough tier (C08: ASan, valgrind memcheck, Miri, libFuzzer; C13: libFuzzer; C18: TSan, Miri).
 
 Builds instrumented variants of the harness (which path-depends on /repo, so they are rebuilt from /repo's working
 tree), runs the harness's own sub-workloads under them, and writes a JSON summary that the check folds into its
@@ -108,6 +108,7 @@ def c08(seed, quick):
         else:
             steps.append(step("memcheck", "clean", 0, "%d executions in %d shards" % (done, shards), executed=done, wall_s=max(r[2] for r in res)))
     steps.append(miri_step("c08-miri", seed, 4 if quick else 16, 6 if quick else 14))
+    steps.append(fuzz_step("totality", seed, 30 if quick else 240, os.path.join(H, "target", "checked", "vh")))
     return steps
 
 
@@ -132,6 +133,49 @@ def miri_step(sub, seed, shards, n):
     if done == 0:
         return step("miri", "failed", detail="no execution completed: " + tail(out0), seeds=len(res))
     return step("miri", "clean", 0, "%d operations interpreted under %d scheduler seeds" % (done, len(res)), executed=done, seeds=len(res), wall_s=wall)
+
+
+# ------------------------------------------------------------------------------------------------ coverage-guided step
+
+def fuzz_step(target, seed, seconds, vh):
+    """libFuzzer (+ASan) over the harness's `tape` targets; crash artifacts that reproduce under the monitors are reports."""
+    F = os.path.join(H, "fuzz")
+    work = os.path.join(H, "target-fuzz")
+    corpus = os.path.join(work, "corpus-" + target)
+    arts = os.path.join(work, "artifacts-" + target) + "/"
+    shutil.rmtree(arts, ignore_errors=True)
+    os.makedirs(arts, exist_ok=True)
+    rc, out, dt = run(["cargo", "+nightly", "fuzz", "build", target], cwd=F, timeout=3000)
+    if rc != 0:
+        return step("fuzz", "failed", detail="fuzz build failed: " + tail(out), wall_s=dt)
+    if not os.path.isdir(corpus) or len(os.listdir(corpus)) < 10:
+        run([vh, "sub", "fuzz-seed", corpus, str(seed)])
+    rc, out, dt2 = run(["cargo", "+nightly", "fuzz", "run", target, corpus, "--", "-max_total_time=%d" % seconds, "-timeout=10", "-rss_limit_mb=4096",
+                        "-artifact_prefix=" + arts, "-fork=16", "-ignore_crashes=1", "-ignore_timeouts=1", "-ignore_ooms=1", "-seed=%d" % (seed % 2**31)], cwd=F, timeout=seconds + 600)
+    execs = max([int(m.group(1)) for m in re.finditer(r"^#(\d+):", out, re.M)] or [0])
+    cov = max([int(m.group(1)) for m in re.finditer(r"cov: (\d+)", out)] or [0])
+    crashes = sorted(glob.glob(arts + "crash-*"))
+    reproduced = []
+    if crashes:
+        rc2, tri, _ = run([vh, "sub", "fuzz-triage", target] + crashes[:200])
+        for line in tri.splitlines():
+            if line.startswith("REPRODUCED "):
+                reproduced.append(line.split()[1])
+    detail = "%d executions, coverage %d edges, corpus %d, %d crash artifacts (%d reproduce under the monitors)" % (execs, cov, len(os.listdir(corpus)) if os.path.isdir(corpus) else 0, len(crashes), len(reproduced))
+    if reproduced:
+        first = [l for l in tri.splitlines() if l.startswith("REPRODUCED ")][0]
+        return step("fuzz", "report", len(reproduced), detail + "; e.g. " + first, executed=execs, artifacts=reproduced, coverage_edges=cov, wall_s=dt + dt2)
+    if execs == 0:
+        return step("fuzz", "failed", detail="fuzzer did not execute anything: " + tail(out), wall_s=dt + dt2)
+    if crashes:
+        # crashes that do not reproduce under the monitors (e.g. fuzzer-side resource limits): not a verdict
+        return step("fuzz", "clean", 0, detail + " — non-reproducing artifacts ignored", executed=execs, coverage_edges=cov, wall_s=dt + dt2)
+    return step("fuzz", "clean", 0, detail, executed=execs, coverage_edges=cov, wall_s=dt + dt2)
+
+
+def c13(seed, quick):
+    vh = os.path.join(H, "target", "checked", "vh")
+    return [fuzz_step("agree", seed, 30 if quick else 240, vh)]
 
 
 # ------------------------------------------------------------------------------------------------ C18
@@ -189,7 +233,7 @@ def main():
     quick = len(sys.argv) > 4 and sys.argv[4] == "quick"
     out = sys.argv[3]
     t0 = time.time()
-    steps = c08(seed, quick) if prop == "C08" else c18(seed, quick)
+    steps = c08(seed, quick) if prop == "C08" else c13(seed, quick) if prop == "C13" else c18(seed, quick)
     json.dump({"property": prop, "seed": seed, "wall_s": round(time.time() - t0, 1), "steps": steps}, open(out, "w"), indent=1)
     for s in steps:
         print("sanitizer step %-9s %-7s reports=%s %s" % (s["name"], s["status"], s["reports"], s["detail"].splitlines()[0] if s["detail"] else ""))
